@@ -480,3 +480,51 @@ package security
 //@ func verifyFSPathEndpoint (nameIP, namePort, peerAddr) (err)
 //@   props C18
 //@   assigns nothing
+
+// ---- token authentication (C11) ------------------------------------------------------------------
+//@ pred sameBytes(a, b) = len(a) == len(b) && forall i :: 0 <= i && i < len(a) ==> a[i] == b[i]
+//@ func bytesEqual (a, b) (result)
+//@   props C11
+//@   assigns nothing
+//@   loop 1 invariant eq_so_far: len(a) == len(b) && forall k :: 0 <= k && k <= rangeindex ==> a[k] == b[k]
+//@   ensures exact: [C11] result == sameBytes(a, b)
+
+// HMAC over the protocol fields: crypto/hmac is outside the model (the MAC is an uninterpreted fresh byte string)
+//@ func (*Authenticator).computeTokenMAC (a, key, parts) (result)
+//@   trusted
+//@   pure
+//@   ensures fresh(result)
+//@ func (*Authenticator).deriveSessionKey (a, rb) (result)
+//@   trusted
+//@   pure
+//@ func (*Authenticator).storeAuthError (a, authData, err)
+//@   props C11
+//@   assigns authData.AuthError, authData.ErrorStatus
+
+//@ func (*Authenticator).verifyTokenMAC (a, key, clientID, serverID, ra, rb, expectedMAC) (err)
+//@   props C11
+//@   assigns nothing
+//@   assert before call bytesEqual #1 compares_the_received_mac: [C11] ref(arg1) == ref(expectedMAC) && len(arg1) == len(expectedMAC) && off(arg1) == off(expectedMAC)
+//@   assert after call bytesEqual #1 verdict_decides: [C11] true
+
+//@ func (*Authenticator).receiveServerTokenStep3 (a, ctx, authData, negotiation) (err)
+//@   props C11
+//@   requires given: a.stream != nil && authData != nil
+//@   assert before call Message).GetChar #1 status_ok: [C11] status == 0
+//@   assert before call Message).GetChar #1 same_client: [C11] clientID == authData.ClientID
+//@   assert before call security.getInt #4 nonce_echoed: [C11] sameBytes(rbEcho, authData.RB)
+//@   assert before call Message).GetChar #1 client_proved_possession: [C11] sameBytes(clientMAC, expectedMAC)
+//@   assert before call Authenticator).deriveSessionKey #1 key_only_without_error: [C11] authData.AuthError == nil
+
+//@ func (*Authenticator).validateTokenAndDeriveKeys (a, authData, negotiation) (err)
+//@   props C11
+//@   requires given: authData != nil && negotiation != nil && negotiation.ServerConfig != nil
+//@   assert before call Authenticator).computeTokenSignature #1 identity_from_token: [C11] authData.ClientID == subject && subject != ""
+//@   assert after call Authenticator).validateTokenTiming #1 timing_enforced: [C11] true
+//@   assert after call Authenticator).loadSigningKey #1 key_of_named_id: [C11] true
+
+//@ func (*Authenticator).receiveTokenStep2 (a, ctx, authData, negotiation) (err)
+//@   props C11
+//@   requires given: a.stream != nil && authData != nil
+//@   assert before call Authenticator).verifyTokenMAC #1 server_proof_checked_against_own_values: [C11] ref(arg1) == ref(authData.SharedKeyK) && arg2 == authData.ClientID && ref(arg4) == ref(authData.RA) && len(arg4) == len(authData.RA) && ref(arg6) == ref(serverMAC) && len(arg6) == len(serverMAC)
+//@   assert before call Authenticator).verifyTokenMAC #1 own_nonce_echoed: [C11] clientIDEcho == authData.ClientID
